@@ -7,6 +7,7 @@ import (
 	"fmt"
 	"os"
 	"path/filepath"
+	"strings"
 	"sync"
 	"time"
 
@@ -35,12 +36,23 @@ func C18(e *Env) {
 			opt.MaxSize = 100
 			kind = "wide"
 		}
+		if i%6 == 3 {
+			// hundreds of members in one directory (anything that treats big directories differently,
+			// e.g. scans them in parallel, must still lay them out the same way every time)
+			opt.MaxDepth, opt.MaxEntries, opt.MaxSize = 0, 700, 60
+			kind = "very-wide"
+		}
 		if i%7 == 0 {
 			opt.MaxSize = 1 // many empty / tiny files: equal rLBA ordering
 			kind = "tiny-files"
 		}
 		name := fmt.Sprintf("t%04d", i)
 		troot, _ := genISOTree(r, parent, name, opt, ps3)
+		if kind == "very-wide" || strings.HasPrefix(kind, "very-wide") {
+			for k := 0; k < 600; k++ { // at least 600 members whatever the generator drew
+				os.WriteFile(filepath.Join(troot, fmt.Sprintf("vw%04d.bin", k)), []byte{byte(k), byte(k >> 8)}, 0o644)
+			}
+		}
 		if i%4 == 1 {
 			// dates the one-byte year field of a directory record cannot hold, the epoch, far future
 			kind += "+odd-dates"
